@@ -131,7 +131,7 @@ impl Property for P {
         vec![
             Workload::new("small-grid", 295, true, "every n in 6..=300, every L in 1..=320"),
             Workload::new("chunk-edges", 3 * 33, true, "n in k*10248-16..=k*10248+16 (k=1..3), L over 40 lengths up to 3 chunks"),
-            Workload::new("random-pairs", tier.pick(3_000, 150_000), false, "random n in 6..=11000, 24 ascending L each"),
+            Workload::new("random-pairs", tier.pick(3_000, 600_000), false, "random n in 6..=11000, 24 ascending L each"),
             Workload::new("loops", (LOOP_NS.len() * 2 * 3) as u64, true, "whole-body loops, fixed buffer, bodies of 1000/25000/70000 bytes"),
             Workload::new("sized-loops-small", 64, true, "length-delimited loops with buffers 1..=64"),
         ]
